@@ -92,6 +92,31 @@ class Prop(BaseProp):
                 ops += g + ["=="]
             ops.append("target %d" % target)
             ccases.append({"id": "k%d" % i, "text": " | ".join(ops), "meta": {"kind": "consolidate-%d" % target, "na": n, "nb": 1}})
+        # interrupted-consolidation histories: A, B, U = A u B (written by an earlier run that did not get to delete
+        # A and B), then C; thresholds chosen so that {A,B} re-creates U byte-for-byte and {U,C} is merged next
+        def shard_size(fs, cs):
+            n = 200 + 48 + 48 + 48
+            for f in fs:
+                n += 48 * (1 + len(f["segs"]) * (2 if f["flags"] & (1 << 31) else 1) + (1 if f["flags"] & (1 << 30) else 0)) + 12
+            for c in cs:
+                n += 48 * (1 + len(c["chunks"])) + 12 + 16 * len(c["chunks"])
+            return n
+        for i in range(6 if not big else 20):
+            fa, ca = sg.gen_shard(rng, rng.randrange(1, 4), rng.randrange(1, 3), "random", max_chunks=4)
+            fb, cb = sg.gen_shard(rng, rng.randrange(1, 4), rng.randrange(1, 3), "random", max_chunks=4)
+            fc, cc = sg.gen_shard(rng, rng.randrange(1, 3), rng.randrange(0, 2), "random", max_chunks=3)
+            sa, sb, su, sc = shard_size(fa, ca), shard_size(fb, cb), shard_size(fa + fb, ca + cb), shard_size(fc, cc)
+            lo = max(sa + sb, su + sc) + 1
+            hi = sa + sb + su
+            target = rng.randrange(lo, hi + 1) if lo <= hi else lo
+            groups = [(fa, ca), (fb, cb), (fa + fb, ca + cb), (fc, cc)]
+            if i % 3 == 2:
+                groups.append(sg.gen_shard(rng, 2, 1, "random", max_chunks=2))
+            ops = []
+            for fs, cs in groups:
+                ops += [sg.fmt_cas(c) for c in cs] + [sg.fmt_file(f) for f in fs] + ["=="]
+            ops.append("target %d" % target)
+            ccases.append({"id": "r%d" % i, "text": " | ".join(ops), "meta": {"kind": "consolidate-after-interrupted-run", "na": len(groups), "nb": 1}})
         return [{"name": "c10", "cases": cases}, {"name": "c10c", "cases": ccases, "model": False}]
 
     def nontrivial(self, stream, case, io):
